@@ -34,6 +34,14 @@ Theorem c11_progress_all_spawned : forall (A : Type) (C : nat), (1 <= C)%nat ->
 Proof. exact progress_all_spawned. Qed.
 Print Assumptions c11_progress_all_spawned.
 
+(** The repaired algorithm (every stage started before any is awaited: all kinds Spawned), without
+    any side condition: no reachable unfinished state is stuck, whatever the payloads and C >= 1. *)
+Theorem c11_progress_repaired : forall (A : Type) (C : nat), (1 <= C)%nat ->
+  forall (sgs : list (stage A)) (s : state A),
+  all_spawned A sgs -> reach C (init sgs) s -> ~ final s -> exists s', step C s s'.
+Proof. exact progress_repaired. Qed.
+Print Assumptions c11_progress_repaired.
+
 (** The same outside the class of the known finding: if every stage that is executed inline and is
     not the last one emits at most the capacity ([known_class], computed from the stages' stream
     functions; the python driver decides the same predicate), no reachable unfinished state is stuck. *)
@@ -63,7 +71,8 @@ Theorem c11_early_exit_reader : forall (A : Type) (C : nat) (sgs : list (stage A
 Proof. exact early_exit_reader. Qed.
 Print Assumptions c11_early_exit_reader.
 
-(** brush today: a stage executed inline in the middle can deadlock (capacity 1, payload 3). *)
+(** Regression example about the old algorithm (fixed by 6cea0bb): a stage executed inline in the
+    middle can deadlock (capacity 1, payload 3). The model of the current code never has such a stage. *)
 Theorem c11_inline_stage_deadlock_refuted :
   exists (C : nat) (sgs : list (stage nat)) (s : state nat),
     (1 <= C)%nat /\ (3 <= length (flat_map (@spend nat) sgs))%nat /\
